@@ -371,3 +371,15 @@ Example C10_ex_file_ok :
   exists s, new_store (CFG true true [nd; na] false false 0) None wf0 5
             = OOk s 0 [EvReq na 0 0 (Some (3, 30)); EvReq nd 0 0 (Some (4, 33))] [].
 Proof. eexists. vm_compute. reflexivity. Qed.
+
+(* a secret whose value is the EMPTY byte string is a perfectly valid cache entry (the server accepts empty values, the
+   store caches and serves them): with V := byte strings, a complete cache holding version 3 of `a` with value []
+   is valid, and NewStore returns at once - no request, no write - serving [] even though the service is down *)
+Definition cache_empty : @smap name (rentry (list N)) := [(na, Some (Some (3, []), 7%Z))].
+Example C10_ex_empty_value_valid : cache_valid cache_empty = true.
+Proof. vm_compute. reflexivity. Qed.
+Example C10_ex_empty_value_served :
+  new_store (CFG true false [na] false true 0) (Some cache_empty)
+            (WORLD (fun _ _ => ANS 0 None) true (Some 5000) (fun _ l => l) 0%Z 0) 5
+  = OOk (ST [(na, Some (CE 3 [] 7%Z true))] [] [] false 0%Z) 0 [] [].
+Proof. vm_compute. reflexivity. Qed.
